@@ -17,6 +17,34 @@ TRUST = ["Spec/Wf.v is a hand-written statement of structural well-formedness an
          "the validator itself (1100 lines of J2119) is not modelled: its verdict is observed on mutated definitions",
          "harness/sim.py (simulated fabric) for the runs beside a healthy execution; illegal-machine failures are recognised by the texts 'Illegal State Machine' / 'non-existent state' / 'non-unique state'"]
 GOOD = {"StartAt": "A", "States": {"A": {"Type": "Pass", "Next": "B"}, "B": {"Type": "Wait", "Seconds": 1, "End": True}}}
+# a machine that uses most fields of the language: the base for the "wrong JSON type" mutations
+RICH = {"Comment": "rich", "StartAt": "C", "TimeoutSeconds": 600, "Version": "1.0", "States": {
+  "C": {"Type": "Choice", "Comment": "c", "InputPath": "$", "OutputPath": "$", "Choices": [
+     {"Variable": "$.ts", "TimestampEquals": "2020-01-01T00:00:00Z", "Next": "W"},
+     {"Variable": "$.ts", "TimestampLessThanPath": "$.ts2", "Next": "W"},
+     {"Variable": "$.s", "StringMatches": "a*b", "Next": "W"},
+     {"Variable": "$.s", "StringLessThan": "b", "Next": "W"},
+     {"Variable": "$.a", "NumericGreaterThanEquals": 7, "Next": "W"},
+     {"Variable": "$.a", "IsNumeric": True, "Next": "W"},
+     {"Variable": "$.flag", "BooleanEqualsPath": "$.flag2", "Next": "W"},
+     {"And": [{"Variable": "$.a", "IsPresent": True}, {"Or": [{"Variable": "$.a", "IsNull": False}, {"Not": {"Variable": "$.s", "IsTimestamp": True}}]}], "Next": "W"}],
+     "Default": "W"},
+  "W": {"Type": "Wait", "SecondsPath": "$.n", "Next": "W2"},
+  "W2": {"Type": "Wait", "Timestamp": "2020-01-01T00:00:00Z", "Next": "W3"},
+  "W3": {"Type": "Wait", "TimestampPath": "$.ts", "Next": "T"},
+  "T": {"Type": "Task", "Resource": "arn:aws:rpcmessage:local::function:f", "TimeoutSeconds": 5, "HeartbeatSeconds": 2, "Parameters": {"x.$": "States.Format('{}', $.a)", "y": {"z.$": "$.s"}},
+        "ResultSelector": {"r.$": "$"}, "ResultPath": "$.t",
+        "Retry": [{"ErrorEquals": ["States.Timeout", "A"], "IntervalSeconds": 1, "MaxAttempts": 2, "BackoffRate": 1.5}],
+        "Catch": [{"ErrorEquals": ["States.ALL"], "ResultPath": "$.err", "Next": "F"}], "Next": "T2"},
+  "T2": {"Type": "Task", "Resource": "arn:aws:rpcmessage:local::function:g", "TimeoutSecondsPath": "$.n", "HeartbeatSecondsPath": "$.n", "Next": "M"},
+  "M": {"Type": "Map", "ItemsPath": "$.items", "MaxConcurrency": 2, "ItemSelector": {"v.$": "$$.Map.Item.Value"}, "ItemProcessor": {"StartAt": "MP", "States": {"MP": {"Type": "Pass", "End": True}}},
+        "ResultPath": "$.m", "Next": "P"},
+  "P": {"Type": "Parallel", "Branches": [{"StartAt": "B1", "States": {"B1": {"Type": "Pass", "Result": {"k": 1}, "End": True}}}, {"StartAt": "B2", "States": {"B2": {"Type": "Succeed"}}}],
+        "ResultSelector": {"all.$": "$"}, "ResultPath": "$.p", "Next": "PS"},
+  "PS": {"Type": "Pass", "Result": {"q": 1}, "ResultPath": "$.ps", "Parameters": {"a.$": "$.a"}, "Next": "S"},
+  "S": {"Type": "Succeed", "InputPath": "$", "OutputPath": "$"},
+  "F": {"Type": "Fail", "Error": "E", "Cause": "c"}}}
+RICH_INPUT = dict(cp.INPUT, ts="2020-01-01T00:00:00Z", ts2="2021-01-01T00:00:00Z", flag2=True)
 ARN2 = cp.ARN + "2"
 ILLEGAL_TEXTS = ("Illegal State Machine", "non-existent state", "non-unique state", "illegal Type")
 
@@ -53,7 +81,8 @@ def mutate(rng, defn):
     machine = at(d, path)
     st = machine["States"][name]
     kind = rng.choice(["drop_next", "retarget", "retag", "drop_type", "drop_end", "rename", "dup_nested", "wrong_type_next", "states_list", "drop_startat", "startat_dangling",
-                       "drop_states", "choices_obj", "default_dangling", "catch_dangling", "unreachable", "drop_resource", "none", "none"])
+                       "drop_states", "choices_obj", "default_dangling", "catch_dangling", "unreachable", "drop_resource", "empty_object", "wrong_json_type", "wrong_json_type",
+                       "none", "none"])
     if kind == "drop_next" and isinstance(st, dict):
         st.pop("Next", None)
     elif kind == "retarget" and isinstance(st, dict) and "Next" in st:
@@ -98,6 +127,38 @@ def mutate(rng, defn):
         machine["States"]["Island"] = {"Type": "Pass", "End": True}
     elif kind == "drop_resource" and isinstance(st, dict):
         st.pop("Resource", None)
+    elif kind == "empty_object" and isinstance(st, dict):
+        # an empty object where a state, a branch, an iterator, a rule, a retrier or a catcher is expected
+        slots = [(machine["States"], name)]
+        for key in ("Iterator", "ItemProcessor"):
+            if key in st:
+                slots.append((st, key))
+        for key in ("Branches", "Choices", "Retry", "Catch"):
+            if isinstance(st.get(key), list):
+                slots += [(st[key], i) for i in range(len(st[key]))]
+        holder, key = rng.choice(slots)
+        holder[key] = {}
+    elif kind == "wrong_json_type" and isinstance(st, dict):
+        # the value of some member of the state (at any depth: rules, retriers, catchers, templates) replaced by a value of another JSON type
+        slots = []
+
+        def walk(v, depth):
+            if isinstance(v, dict):
+                for k in v:
+                    if not (depth == 0 and k in ("Branches", "Iterator", "ItemProcessor")):
+                        slots.append((v, k))
+                        walk(v[k], depth + 1)
+            elif isinstance(v, list):
+                for i in range(len(v)):
+                    slots.append((v, i))
+                    walk(v[i], depth + 1)
+        walk(st, 0)
+        if slots:
+            holder, key = rng.choice(slots)
+            old = holder[key]
+            new = rng.choice([v for v in (5, -1, 1.5, None, True, "text", "$.a", [], ["x"], {}, {"a": 1}) if type(v) is not type(old)])
+            holder[key] = new
+            kind += ":%s" % (key if isinstance(key, str) else "[]")
     return d, kind
 
 
@@ -108,7 +169,7 @@ def run_beside_healthy(tmpd, defn, seed):
     for inst in w.instances.values():
         inst.engine.asl_store[ARN2] = {"creationDate": 0, "definition": defn, "name": "camp2", "roleArn": sim.impl.ROLE, "stateMachineArn": ARN2, "updateDate": 0, "status": "ACTIVE", "type": "STANDARD"}
     w.start_execution(cp.ARN, {"a": 1}, name="h1")
-    w.start_execution(ARN2, json.loads(json.dumps(cp.INPUT)), name="m1")
+    w.start_execution(ARN2, json.loads(json.dumps(RICH_INPUT)), name="m1")
     w.start_execution(cp.ARN, {"a": 2}, name="h2")
     worker = cp.Worker(seed, failures=0.0)
     res = {"exception": None}
@@ -124,7 +185,7 @@ def run_beside_healthy(tmpd, defn, seed):
     for t in w.trace:
         if t[0] == "broadcast":
             d = t[3]["detail"]
-            per.setdefault(d["executionArn"].rpartition(":")[2], []).append((d["status"], d.get("error"), (d.get("cause") or "")[:300]))
+            per.setdefault(d["executionArn"].rpartition(":")[2], []).append((d["status"], d.get("error"), str(d.get("cause") or "")[:300]))
     res["notifications"] = per
     res["leftovers"] = w.leftovers()
     return res
@@ -155,6 +216,9 @@ def main():
             d, k2 = mutate(rng, d)
             kind += "+" + k2
         defs.append((d, kind))
+    for i in range(n // 2):
+        d, kind = mutate(rng, RICH)
+        defs.append((d, "rich:" + kind))
     defs += [(a, "arbitrary JSON") for a in arbitrary]
     # the same state name in sub-machines that do not enclose each other, with a transition to it
     for variant in range(12 if thorough else 6):
@@ -223,7 +287,7 @@ def main():
                 else:
                     ck.violation("%s: %s" % (what[f], json.dumps(descs[i])[:1300]), {"case": descs[i], "monitor": f})
     ck.add_group("mutated_definitions", len(cases), min(accepted, len(cases) - accepted) * 2, descs[:2], accepted_by_validator=accepted,
-                 illegal_at_run_time=sum(1 for d in descs if d["illegal_at_run_time"]), mutations=sorted(set(k.split("+")[0] for _, k in defs)))
+                 illegal_at_run_time=sum(1 for d in descs if d["illegal_at_run_time"]), mutations=sorted(set(k.replace("rich:", "").split("+")[0].split(":")[0] for _, k in defs)))
 
     # 3. poison events on the queues
     poison = [b"not json", b"\xff\xfe", b"", b"null", b"5", b'"text"', b"[1, 2]", b"{}", b'{"data": 1}', b'{"context": 5}', b'{"context": {}}', b'{"context": {"StateMachine": {}}}',
@@ -268,9 +332,9 @@ def main():
                 ck.violation("a poison event started an execution that never reached a terminal status: %s" % json.dumps(d)[:900], {"case": d})
     ck.add_group("poison_events", pz, pz, [])
     shutil.rmtree(tmpd, ignore_errors=True)
-    ck.cov["rule"] = ("random machines (all state types, nesting to depth 2, Retry/Catch) with one or two mutations out of: drop Next / Type / End / StartAt / States / Resource, retarget Next / Default / "
+    ck.cov["rule"] = ("random machines (all state types, nesting to depth 2, Retry/Catch) and one hand-written machine using most fields of the language (all Choice operators families, Wait forms, timeouts, heartbeat, Retry, Catch, Map, Parallel, templates), with one or two mutations out of: drop Next / Type / End / StartAt / States / Resource, retarget Next / Default / "
                       "Catch.Next / StartAt to a missing state, unknown or non-string Type, Next of the wrong JSON type, States as a list, Choices as an object, renamed state, a nested state "
-                      "named like a state elsewhere, an unreachable state; plus arbitrary JSON values; each through the validator and (accepted ones always, rejected ones mostly) through the engine "
+                      "named like a state elsewhere, an unreachable state, an empty object in place of a state / branch / iterator / rule / retrier / catcher, a member of a state (at any depth) given a value of another JSON type; plus arbitrary JSON values; each through the validator and (accepted ones always, rejected ones mostly) through the engine "
                       "beside two healthy executions; 17 kinds of poison event on the shared and the per-instance queue; non-trivial = accepted and rejected both counted (min*2)")
     ck.assumptions = ["'illegal state machine' failures are recognised by the engine's own error texts", "task workers always answer (task behaviour is not the subject here)"]
     ck.finish(BASE_TRUST + TRUST)
